@@ -23,8 +23,9 @@ immutable data, so the model computes the list of writes `(e1, row)` and
 applies them (`applyWrites`); the order of the list is the schedule.
 `Proofs/Dual.lean` shows the targets are pairwise distinct and the result does
 not depend on the order.  The second raw-pointer loop copies row `i` to
-`indices[indptr[i] .. indptr[i+1]]`; `indptr` is the prefix sum of the row
-lengths, so these ranges tile `indices` in row order: the model concatenates.
+`indices[indptr[i] .. indptr[i+1]]` (`copyRows`, rows taken in order);
+`indptr` is the prefix sum of the row lengths, so these ranges tile `indices`
+and the result is the concatenation of the rows (`assemble_eq`).
 -/
 
 namespace Coupe.Dual
@@ -269,10 +270,22 @@ structure Csr where
   dataLen : Nat
 deriving Repr, DecidableEq
 
-/-- CSR assembly from the rows. -/
+/-- `copy_nonoverlapping(neighbors.as_ptr(), indices[start..end].as_ptr(), end - start)`:
+overwrite `buf[start .. start + row.len()]` with `row`. -/
+def copyRow (buf : List Nat) (start : Nat) (row : List Nat) : List Nat :=
+  buf.take start ++ row ++ buf.drop (start + row.length)
+
+/-- The last loop of `dual`, `indptr.zip(&indptr[1..]).zip(indice_locks)`, rows
+taken in order (the target ranges are pairwise disjoint). -/
+def copyRows (buf : List Nat) : List Nat → List (List Nat) → List Nat
+  | start :: ptr, row :: rows => copyRows (copyRow buf start row) ptr rows
+  | _, _ => buf
+
+/-- CSR assembly from the rows: prefix sums, `indices = vec![0; indptr[last]]`,
+row copies, `data = vec![1.0; indices.len()]`. -/
 def assemble (rows : List (List Nat)) : Csr :=
   let indptr := prefixSums 0 (rows.map List.length)
-  let indices := rows.flatten
+  let indices := copyRows (List.replicate (indptr.getLastD 0) 0) indptr rows
   { size := indptr.length - 1, indptr := indptr, indices := indices, dataLen := indices.length }
 
 /-- Row `i` of a CSR matrix: `indices[indptr[i] .. indptr[i+1]]`. -/
